@@ -118,7 +118,10 @@ def search_pose(seed, n, classes=None, methods=None, thresh=2e-6):
                     b = type(b)(vals[:2], vals[2]) if isinstance(b, PoseSE2) else type(b)(vals[:3], vals[3:]) if isinstance(b, PoseSE3) else type(b)(vals)
                 if r > 0.7:
                     try:
-                        getattr(a, mname)(b) if b is not None else getattr(a, mname)()
+                        out = getattr(a, mname)(b) if b is not None else getattr(a, mname)()
+                        # the caller owns what a method returned: scaling it in place must not change later answers
+                        np.asarray(out)[...] *= 3.5
+                        np.asarray(a.jacobian_boxplus())[...] *= -2.0
                     except Exception:
                         pass
                     if isinstance(a, PoseSE3):
@@ -207,6 +210,20 @@ def search_edges(seed, n, thresh=2e-6):
                 if kind == "odometry" and T == "PoseSE2":
                     err = e.calc_error()
                     if near_wrap(err[2]):
+                        stats["skipped_near_wrap"] += 1
+                        continue
+                if k % 3 == 2:
+                    # history: the edge was already evaluated at other estimates, then a vertex pose was edited *in place*
+                    # (poses are mutable arrays): nothing computed earlier may leak into the Jacobians
+                    e.calc_error()
+                    e.calc_chi2()
+                    if k % 2 == 0:
+                        e.calc_jacobians()
+                    vsel = e.vertices[k % 2]
+                    fresh = rand_pose(rng, type(vsel.pose).__name__, mild=True)
+                    vsel.pose[:] = np.asarray(fresh)
+                    stats["history_probes"] = stats.get("history_probes", 0) + 1
+                    if kind == "odometry" and T == "PoseSE2" and near_wrap(e.calc_error()[2]):
                         stats["skipped_near_wrap"] += 1
                         continue
                 (dev, scale, vk, ana, num), err0 = check_edge(e)
